@@ -87,6 +87,16 @@ fn constructors(acc: &mut Acc) {
                     if NaiveTime::from_hms_opt(h, m, s).is_some() != base_ok {
                         acc.violation("NaiveTime::from_hms_opt", format!("NaiveTime::from_hms_opt({}, {}, {})", h, m, s), format!("{}", base_ok), format!("{:?}", NaiveTime::from_hms_opt(h, m, s)));
                     }
+                    #[allow(deprecated)]
+                    {
+                        // the deprecated panicking forms: the same value, or a panic exactly where the _opt form says None
+                        acc.transitions += 2;
+                        let a = guard(|| NaiveTime::from_hms(h, m, s)).ok();
+                        let b = guard(|| NaiveTime::from_hms_nano(h, m, s, 1_500_000_000)).ok();
+                        if a != NaiveTime::from_hms_opt(h, m, s) || b != NaiveTime::from_hms_nano_opt(h, m, s, 1_500_000_000) || a.is_some() != base_ok || b.is_some() != (base_ok && s == 59) {
+                            acc.violation("NaiveTime::from_hms (deprecated forms)", format!("NaiveTime::from_hms({}, {}, {}) / from_hms_nano(.., 1500000000)", h, m, s), format!("{:?} / {:?}", NaiveTime::from_hms_opt(h, m, s), NaiveTime::from_hms_nano_opt(h, m, s, 1_500_000_000)), format!("{:?} / {:?}", a, b));
+                        }
+                    }
                     for &x in &[0u32, 1, 999, 1000, 1001, 1999, 2000, 4294, 4295, 4296, 999_999, 1_000_000, 1_999_999, 2_000_000, 4_294_967, 4_294_968, 4_294_967_295, 4_294_967_294, 1 << 31, 4_295_000, 4_296_000, 8_590] {
                         for (name, mul) in [("milli", 1_000_000u64), ("micro", 1_000u64)] {
                             let n = x as u64 * mul;
@@ -97,6 +107,14 @@ fn constructors(acc: &mut Acc) {
                                 (Some(t), true) if (t.hour(), t.minute(), t.second(), t.nanosecond() as u64) == (h, m, s, n) => acc.hit(ACC_),
                                 (None, false) => acc.hit_nt(REJ),
                                 (g, _) => acc.violation(&format!("NaiveTime::from_hms_{}_opt", name), format!("NaiveTime::from_hms_{}_opt({}, {}, {}, {})", name, h, m, s, x), if ok { format!("Some with nanosecond {}", n) } else { "None".into() }, format!("{:?}", g)),
+                            }
+                            if h < 24 && m == 0 && (s == 59 || s == 0 || s == 60) {
+                                #[allow(deprecated)]
+                                let dep = guard(|| if mul == 1_000_000 { NaiveTime::from_hms_milli(h, m, s, x) } else { NaiveTime::from_hms_micro(h, m, s, x) }).ok();
+                                acc.transitions += 1;
+                                if dep != got {
+                                    acc.violation("NaiveTime::from_hms_milli/micro (deprecated forms)", format!("NaiveTime::from_hms_{}({}, {}, {}, {})", name, h, m, s, x), format!("{:?}", got), format!("{:?}", dep));
+                                }
                             }
                         }
                     }
@@ -116,6 +134,14 @@ fn constructors(acc: &mut Acc) {
                 (Some(t), true) if parts(t) == (s, n) && (t.hour(), t.minute(), t.second()) == (s / 3600, s / 60 % 60, s % 60) => acc.hit(ACC_),
                 (None, false) => acc.hit_nt(REJ),
                 (g, _) => acc.violation("NaiveTime::from_num_seconds_from_midnight_opt", format!("NaiveTime::from_num_seconds_from_midnight_opt({}, {})", s, n), if ok { "Some".into() } else { "None".to_string() }, format!("{:?}", g)),
+            }
+            if ok || s % 3600 == 0 || s > 86_400 {
+                #[allow(deprecated)]
+                let dep = guard(|| NaiveTime::from_num_seconds_from_midnight(s, n)).ok();
+                acc.transitions += 1;
+                if dep != got {
+                    acc.violation("NaiveTime::from_num_seconds_from_midnight (deprecated form)", format!("NaiveTime::from_num_seconds_from_midnight({}, {})", s, n), format!("{:?}", got), format!("{:?}", dep));
+                }
             }
         }
     }
@@ -176,6 +202,27 @@ fn add_all(acc: &mut Acc, s: u32, fracs: &[u32], durs: &[i128], depth2: bool) {
             }
             if t + td != got || t - td != got2 {
                 acc.violation("NaiveTime:operators", format!("NaiveTime(sec {} frac {}) +/- TimeDelta({} ns)", s, f, d), format!("{:?} / {:?}", got, got2), format!("{:?} / {:?}", t + td, t - td));
+            }
+            // sibling forms: assign operators, std::time::Duration operands (non-negative durations)
+            let (mut x, mut y) = (t, t);
+            x += td;
+            y -= td;
+            acc.transitions += 2;
+            if x != got || y != got2 {
+                acc.violation("NaiveTime:assign-operators", format!("x = NaiveTime(sec {} frac {}); x += / -= TimeDelta({} ns)", s, f, d), format!("{:?} / {:?}", got, got2), format!("{:?} / {:?}", x, y));
+            }
+            if d >= 0 {
+                let sd = std::time::Duration::new((d / NS) as u64, (d % NS) as u32);
+                let (mut x, mut y) = (t, t);
+                x += sd;
+                y -= sd;
+                acc.transitions += 4;
+                if t + sd != got || x != got {
+                    acc.violation("NaiveTime:add-std-Duration", format!("NaiveTime(sec {} frac {}) + std Duration({} ns) [operator / assign operator]", s, f, d), format!("{:?} = (sec, frac) {:?}, as for + TimeDelta", got, parts(got)), format!("{:?} / {:?}", parts(t + sd), parts(x)));
+                }
+                if t - sd != got2 || y != got2 {
+                    acc.violation("NaiveTime:sub-std-Duration", format!("NaiveTime(sec {} frac {}) - std Duration({} ns) [operator / assign operator]", s, f, d), format!("{:?} = (sec, frac) {:?}, as for - TimeDelta", got2, parts(got2)), format!("{:?} / {:?}", parts(t - sd), parts(y)));
+                }
             }
             if depth2 && d.abs() < 3 * NS {
                 // leave the leap second and come back (or the reverse): a second step from the result
@@ -245,7 +292,29 @@ fn ndt_leap(acc: &mut Acc, z: i64, durs: &[i128]) {
                     let tz = z as i128 + (carry / 86400) as i128;
                     let ok = tz >= MIN_DAY as i128 && tz <= MAX_DAY as i128;
                     let got = if neg { t.checked_sub_signed(td) } else { t.checked_add_signed(td) };
-                    acc.transitions += 1;
+                    acc.transitions += 3;
+                    let op = guard(|| if neg { t - td } else { t + td }).ok();
+                    let asg = guard(|| {
+                        let mut x = t;
+                        if neg {
+                            x -= td
+                        } else {
+                            x += td
+                        }
+                        x
+                    })
+                    .ok();
+                    if d >= 0 {
+                        let sd = std::time::Duration::new((d / NS) as u64, (d % NS) as u32);
+                        acc.transitions += 1;
+                        let ops = guard(|| if neg { t - sd } else { t + sd }).ok();
+                        if ops != got {
+                            acc.violation("NaiveDateTime:std-Duration:leap", format!("{:?} {} std Duration({} ns)", t, if neg { "-" } else { "+" }, d), format!("{:?}", got), format!("{:?}", ops));
+                        }
+                    }
+                    if op != got || asg != got {
+                        acc.violation("NaiveDateTime:operators:leap", format!("{:?} {} TimeDelta({} ns) [operator / assign operator]", t, if neg { "-" } else { "+" }, d), format!("{:?}", got), format!("{:?} / {:?}", op, asg));
+                    }
                     match (got, ok) {
                         (Some(r), true) if ndt_parts(r) == (tz as i64, wt.0, wt.1) => {
                             if carry != 0 {
